@@ -374,7 +374,7 @@ def gen(rng, want=None):
             s = _word(rng, w, 1, 3)
             pre = _pattern(rng, w, True)
             post = _pattern(rng, w, False)
-            L.append("%smatch %s %s %s %s" % (rng.choice(["", "noback ", "nofor "]), pre, chs(s), post, cells_str(_cells(rng, w, lo=1, hi=3))))
+            L.append("%s %s %s %s %s" % (rng.choice(["match", "noback match", "nofor match", "backmatch"]), pre, chs(s), post, cells_str(_cells(rng, w, lo=1, hi=3))))
             w.triggers.append(_word(rng, w, 0, 2) + s + _word(rng, w, 0, 2))
             w.triggers.append(s)
     # ---- multipass
